@@ -14,6 +14,11 @@ From Mage Require Import Base.Strs Base.Expand Model.Cache Model.Paths.
 Definition enc (x : string) : string :=
   (NilEmpty.string_of_uint (Nat.to_uint (String.length x)) ++ ":" ++ x)%string.
 
+(* compact spelling of long texts in case files: [cat [piece; rep 400 line; piece]] *)
+Fixpoint rep (n : nat) (s : string) : string :=
+  match n with O => EmptyString | S k => (s ++ rep k s)%string end.
+Definition cat (l : list string) : string := fold_right String.append EmptyString l.
+
 Definition prog : Type := string * string * fileset.
 Definition comp (v d : string) (fs : fileset) : prog := (v, d, fs).
 
